@@ -18,6 +18,10 @@ import (
 )
 
 func main() {
+	if len(os.Args) > 2 && os.Args[1] == "crashchild" {
+		dom.CrashChild(os.Args[2:])
+		return
+	}
 	if len(os.Args) < 3 {
 		fmt.Fprintln(os.Stderr, "usage: corr <domain> run|exec [flags]")
 		os.Exit(2)
